@@ -157,6 +157,167 @@ fn run_schedule(r: &mut Report, stream: &[u8], eof_at: usize, chunking: Chunking
     }
 }
 
+/// Read the next packet through one of the transport's four reading operations.
+/// 0 read_packet::<Raw>, 1 read_packet_with_ack::<Raw>, 2 write_packet_with_ack(Ack), 3 read_packet::<Ack>.
+/// For 2 and 3 the packet is parsed as an acknowledge, so `Err` is a legitimate outcome; the bytes are then unknown (None).
+fn read_via(transport: &mut PacketTransport<Term>, op: u8) -> Result<Polled<Result<Option<Vec<u8>>, String>>, String> {
+    use zvt::packets;
+    guarded(|| match op {
+        0 => {
+            let mut fut = Box::pin(transport.read_packet::<Raw>());
+            match block_on(Pin::new(&mut fut)) {
+                Polled::Ready(x) => Polled::Ready(x.map(|Raw(b)| Some(b)).map_err(|e| format!("{e:#}"))),
+                Polled::Stuck => Polled::Stuck,
+                Polled::Runaway => Polled::Runaway,
+            }
+        }
+        1 => {
+            let mut fut = Box::pin(transport.read_packet_with_ack::<Raw>());
+            match block_on(Pin::new(&mut fut)) {
+                Polled::Ready(x) => Polled::Ready(x.map(|Raw(b)| Some(b)).map_err(|e| format!("{e:#}"))),
+                Polled::Stuck => Polled::Stuck,
+                Polled::Runaway => Polled::Runaway,
+            }
+        }
+        2 => {
+            let mut fut = Box::pin(transport.write_packet_with_ack(&packets::Ack {}));
+            match block_on(Pin::new(&mut fut)) {
+                Polled::Ready(x) => Polled::Ready(x.map(|_| None).map_err(|e| format!("{e:#}"))),
+                Polled::Stuck => Polled::Stuck,
+                Polled::Runaway => Polled::Runaway,
+            }
+        }
+        _ => {
+            let mut fut = Box::pin(transport.read_packet::<zvt::io::Ack>());
+            match block_on(Pin::new(&mut fut)) {
+                Polled::Ready(x) => Polled::Ready(x.map(|_| None).map_err(|e| format!("{e:#}"))),
+                Polled::Stuck => Polled::Stuck,
+                Polled::Runaway => Polled::Runaway,
+            }
+        }
+    })
+}
+
+const OP_NAMES: [&str; 4] = ["read_packet", "read_packet_with_ack", "write_packet_with_ack", "read_packet::<Ack>"];
+
+/// Mixed-operation schedule: the k-th packet of the stream is consumed through operation `ops[k]`.
+/// Whatever the operation and whether or not its parser likes the packet, it consumes exactly that packet.
+fn run_mixed(r: &mut Report, stream: &[u8], eof_at: usize, chunking: Chunking, pend_between: bool, ops: &[u8], hashed: bool) {
+    let data = &stream[..eof_at];
+    let expected = expected_packets(data);
+    let mut script = Script::new(vec![Entry { bytes: data.to_vec(), gate: 0 }]);
+    script.eof = true;
+    script.chunking = chunking.clone();
+    script.pend_between = pend_between;
+    let term = Term::new(script);
+    term.0.lock().unwrap().record_payloads = true;
+    let mut transport = PacketTransport { source: term.clone() };
+    if hashed {
+        let mut h = fnv(data) ^ (eof_at as u64) << 32 ^ fnv(ops).rotate_left(17);
+        if let Chunking::Cuts(c) = &chunking {
+            for x in c {
+                h = h.wrapping_mul(31).wrapping_add(*x as u64);
+            }
+        }
+        r.case(h, !data.is_empty());
+    } else {
+        r.case_enumerated(!data.is_empty());
+    }
+    let opnames: Vec<&str> = ops.iter().take(expected.len() + 1).map(|o| OP_NAMES[*o as usize & 3]).collect();
+    let case = || json!({"kind": "transport-mixed", "stream": if data.len() <= 64 { hex(data) } else { format!("{} bytes, head {}", data.len(), hex(&data[..16])) }, "operations": opnames, "chunking": format!("{chunking:?}").chars().take(200).collect::<String>(), "pending_between_chunks": pend_between, "eof_after": eof_at, "expected_packets": expected.len()});
+    let mut consumed = 0usize;
+    let mut acks_due = 0usize;
+    for (k, want) in expected.iter().enumerate() {
+        let op = ops[k % ops.len()] & 3;
+        let name = OP_NAMES[op as usize];
+        let res = read_via(&mut transport, op);
+        if op == 1 || op == 2 {
+            acks_due += 1;
+        }
+        consumed += want.len();
+        match res {
+            Err(p) => {
+                r.violation(&format!("{name} {}", panic_signature(&p)), &format!("packet {k}: {p}"), case());
+                return;
+            }
+            Ok(Polled::Runaway) => {
+                r.inconclusive("harness poll guard fired in C04");
+                return;
+            }
+            Ok(Polled::Stuck) => {
+                r.violation(&format!("{name} parks although the packet was completely delivered"), &format!("packet {k}"), case());
+                return;
+            }
+            Ok(Polled::Ready(Ok(Some(b)))) => {
+                if b != *want {
+                    r.violation(&format!("{name} returns other bytes than the k-th packet"), &format!("packet {k}: got {} bytes {}, expected {} bytes {}", b.len(), hex(&b[..b.len().min(24)]), want.len(), hex(&want[..want.len().min(24)])), case());
+                    return;
+                }
+            }
+            Ok(Polled::Ready(Ok(None))) => {}
+            Ok(Polled::Ready(Err(e))) => {
+                if op < 2 {
+                    r.violation(&format!("{name} fails although the packet was completely delivered"), &format!("packet {k}: Err({e})"), case());
+                    return;
+                }
+            }
+        }
+        let cur = term.delivered();
+        if cur != consumed {
+            r.violation(&format!("{name} consumes a different number of bytes than header + announced body"), &format!("after packet {k} ({}) the stream cursor is at {cur}, the packets so far are {consumed} bytes", hex(&want[..want.len().min(12)])), case());
+            return;
+        }
+    }
+    let w = term.written_bytes();
+    if w.len() != 3 * acks_due || w.chunks(3).any(|c| c != [0x80, 0, 0]) {
+        r.violation("the acknowledges written by the *_with_ack operations are not one 80 00 00 per operation", &format!("written {} expected {} acknowledges", hex(&w[..w.len().min(30)]), acks_due), case());
+        return;
+    }
+    // the stream now ends inside or before the next packet: every operation fails, none returns a packet or parks
+    for attempt in 0..2 {
+        let op = ops[(expected.len() + attempt) % ops.len()] & 3;
+        let name = OP_NAMES[op as usize];
+        match read_via(&mut transport, op) {
+            Ok(Polled::Ready(Err(_))) => {}
+            Ok(Polled::Ready(Ok(_))) => {
+                r.violation(&format!("{name} returns a packet that was not completely delivered"), &format!("after {} complete packets, attempt {attempt}: Ok although only {} bytes remained before end of stream", expected.len(), data.len() - consumed), case());
+                return;
+            }
+            Ok(Polled::Stuck) => {
+                r.violation(&format!("{name} parks at end of stream instead of failing"), &format!("after {} complete packets", expected.len()), case());
+                return;
+            }
+            Ok(Polled::Runaway) => {
+                r.inconclusive("harness poll guard fired in C04");
+                return;
+            }
+            Err(p) => {
+                r.violation(&format!("{name} at end of stream {}", panic_signature(&p)), &p, case());
+                return;
+            }
+        }
+    }
+}
+
+/// Packets a terminal really sends in reply position (acknowledge, negative acknowledge, abort with and without body,
+/// completion, status with body, intermediate status) plus header-shaped bodies.
+fn reply_like_packets() -> Vec<Vec<u8>> {
+    vec![
+        vec![0x80, 0x00, 0x00],
+        vec![0x84, 0x83, 0x00],
+        vec![0x84, 0x9c, 0x00],
+        vec![0x06, 0x1e, 0x01, 0x6c],
+        vec![0x06, 0x1e, 0x00],
+        vec![0x06, 0x0f, 0x00],
+        vec![0x04, 0xff, 0x01, 0x0a],
+        vec![0x04, 0x0f, 0x02, 0x27, 0x00],
+        vec![0x80, 0x00, 0x03, 0x80, 0x00, 0x00],
+        vec![0x80, 0x00, 0xff, 0x00, 0x00],
+        vec![0x80, 0x00, 0xff, 0x02, 0x00, 0x80, 0x00],
+        vec![0x06, 0xd3, 0x05, 0x80, 0x00, 0x00, 0x06, 0x0f],
+    ]
+}
+
 /// write_packet of a real command whose body is exactly `l` bytes; returns what was written.
 fn write_body_of_len(l: usize) -> Result<Vec<u8>, String> {
     use zvt::packets;
@@ -221,7 +382,7 @@ pub fn miri_slice(r: &mut Report, seed: u64, n: usize, shard: usize) -> usize {
 
 pub fn run(ctx: &Ctx) -> i32 {
     let mut report = ctx.report("C04", "exploration");
-    report.rule = "(i) header agreement exhaustively for body lengths 0..65535: write_packet of a real command with exactly L body bytes, header compared with the independent formula, then read back through read_packet whole / with the header delivered byte-wise / split at every header offset; (ii) every sequence of 1-4 packets of total length <= 15 (quick: <= 13) incl. non-shortest FF headers: all 2^(n-1) partitions into read results x every end-of-stream position, with and without a Pending wake-up between chunks; (iii) sequences of up to 8 packets with bodies to 65535 (254/255/256 included): byte-wise, every single split point, random partitions, sampled end-of-stream positions. Checked after every return: the k-th packet's bytes, the stream cursor == sum of packet lengths, error (not a packet, not parking) when the stream ends inside a packet. Non-trivial = non-empty stream; (i)/(ii) are duplicate-free enumerations, (iii) hashed.".into();
+    report.rule = "(i) header agreement exhaustively for body lengths 0..65535: write_packet of a real command with exactly L body bytes, header compared with the independent formula, then read back through read_packet whole / with the header delivered byte-wise / split at every header offset; (ii) every sequence of 1-4 packets of total length <= 15 (quick: <= 13) incl. non-shortest FF headers: all 2^(n-1) partitions into read results x every end-of-stream position, with and without a Pending wake-up between chunks; (iii) sequences of up to 8 packets with bodies to 65535 (254/255/256 included): byte-wise, every single split point, random partitions, sampled end-of-stream positions. Checked after every return: the k-th packet's bytes, the stream cursor == sum of packet lengths, error (not a packet, not parking) when the stream ends inside a packet. (iv) mixed reading operations: the k-th packet consumed through read_packet / read_packet_with_ack / write_packet_with_ack / read_packet::<Ack> (whose parser may legitimately reject it) over terminal-reply-shaped packets (acknowledge, negative acknowledge, abort with body, completion, status, header-shaped bodies): every pair of packets x every pair of operations x whole/byte-wise/every cut/every end of stream, plus random histories of up to 7 packets; after every operation, successful or not, the cursor is at the packet boundary, the next operations return the following packets, and one 80 00 00 was written per *_with_ack operation. Non-trivial = non-empty stream; (i)/(ii)/(iv pairs) are duplicate-free enumerations, (iii)/(iv random) hashed.".into();
     report.exhaustive = Some(true);
     report.assumptions = vec!["independent framing rule: 3-byte header, or 5 bytes when the third byte is FF with a little-endian 16-bit length".into(), "RawPacket parser accepts any bytes so that framing is observed in isolation".into()];
     let threads = ctx.threads;
@@ -360,6 +521,78 @@ pub fn run(ctx: &Ctx) -> i32 {
                 let eof_at = if rng.chance(1, 2) { n } else { rng.below(n as u64 + 1) as usize };
                 run_schedule(r, &stream, eof_at, Chunking::Cuts(cuts), rng.chance(1, 2), true, false);
             }
+        }
+    });
+    // (iv) mixed reading operations: the k-th packet is consumed through read_packet, read_packet_with_ack,
+    // write_packet_with_ack or read_packet::<Ack>; the packets are what a terminal sends in reply position
+    let pk = reply_like_packets();
+    report.extra.insert("mixed_reply_like_packets".into(), json!(pk.len()));
+    sharded(&mut report, threads, |shard, r| {
+        // every pair of packets x every pair of operations + a trailing plain read x {whole, byte-wise, every cut} x every end of stream
+        let mut idx = 0usize;
+        for a in 0..pk.len() {
+            for b in 0..pk.len() {
+                for oa in 0..4u8 {
+                    for ob in 0..4u8 {
+                        idx += 1;
+                        if idx % threads != shard {
+                            continue;
+                        }
+                        let mut s = pk[a].clone();
+                        s.extend(&pk[b]);
+                        s.extend([0x04, 0x0f, 0x01, 0x55]);
+                        let n = s.len();
+                        let ops = [oa, ob, 0];
+                        run_mixed(r, &s, n, Chunking::Whole, false, &ops, false);
+                        run_mixed(r, &s, n, Chunking::Bytewise, true, &ops, false);
+                        if !quick || (a + b + oa as usize + ob as usize) % 4 == 0 {
+                            for cut in 1..n {
+                                run_mixed(r, &s, n, Chunking::Cuts(vec![cut]), cut % 2 == 0, &ops, false);
+                            }
+                            for eof_at in 0..n {
+                                run_mixed(r, &s, eof_at, Chunking::Whole, false, &ops, false);
+                            }
+                        }
+                    }
+                }
+            }
+        }
+        // random longer histories
+        let mut rng = Rng::derive(seed, 0xC04_4000 + shard as u64);
+        let n_mixed = if quick { 40_000 } else { 1_500_000 };
+        for _ in 0..n_mixed / threads {
+            let np = 1 + rng.below(7) as usize;
+            let mut s = vec![];
+            for _ in 0..np {
+                if rng.chance(3, 4) {
+                    s.extend(rng.pick(&pk).clone());
+                } else {
+                    let l = *rng.pick(&[0usize, 1, 2, 3, 5, 40, 254, 255, 256, 700]);
+                    s.extend([rng.byte(), rng.byte()]);
+                    if l >= 255 || rng.chance(1, 10) {
+                        s.extend([0xff, l as u8, (l >> 8) as u8]);
+                    } else {
+                        s.push(l as u8);
+                    }
+                    let fill = *rng.pick(&[0x80u8, 0x00, 0xff, 0x06]);
+                    s.extend(std::iter::repeat(fill).take(l));
+                }
+            }
+            let ops: Vec<u8> = (0..np + 2).map(|_| rng.below(4) as u8).collect();
+            let n = s.len();
+            let chunking = match rng.below(3) {
+                0 => Chunking::Whole,
+                1 => Chunking::Bytewise,
+                _ => {
+                    let k = 1 + rng.below(8) as usize;
+                    let mut cuts: Vec<usize> = (0..k).map(|_| 1 + rng.below(n as u64 - 1) as usize).collect();
+                    cuts.sort();
+                    cuts.dedup();
+                    Chunking::Cuts(cuts)
+                }
+            };
+            let eof_at = if rng.chance(2, 3) { n } else { rng.below(n as u64 + 1) as usize };
+            run_mixed(r, &s, eof_at, chunking, rng.chance(1, 2), &ops, true);
         }
     });
     if !ctx.quick() && std::env::var("VERIF_NO_MIRI").is_err() {
